@@ -21,10 +21,14 @@ fn with_prop(id: &str, f: &mut dyn FnMut(&dyn Runner)) -> bool {
         "C03" => f(&HistProp(Which::C03)),
         "C04" => f(&HistProp(Which::C04)),
         "C05" => f(&props::c05::C05),
+        "C07" => f(&props::c07::C07),
+        "C08" => f(&props::c08::C08),
         "C09" => f(&HistProp(Which::C09)),
         "C10" => f(&props::c10::C10),
+        "C11" => f(&props::c11::C11),
         "C12" => f(&props::c12::C12),
         "C13" => f(&props::c13::C13),
+        "C16" => f(&props::c16::C16),
         "C17" => f(&props::c17::C17),
         _ => return false,
     }
